@@ -606,7 +606,10 @@ func (s *Silences) Maintenance(interval time.Duration, snapf string, stopc <-cha
 			return size, err
 		}
 		if size, err = s.Snapshot(f); err != nil {
-			f.Close()
+			// Do not use f.Close here: it would rename the incomplete
+			// temporary file over the last good snapshot.
+			f.File.Close()
+			os.Remove(f.Name())
 			return size, err
 		}
 		return size, f.Close()
